@@ -33,6 +33,31 @@ def handle (ws : List String) : String :=
       | none, _, _ => "err bad-deck"
       | _, none, _ => "err bad-t4-hex"
       | _, _, none => "err bad-eps"
+  | ["compile", hx] =>
+      match unhex hx >>= Sexp.parse with
+      | some s => runCompile s
+      | none => "err bad-sexp"
+  | ["post", hx] =>
+      match unhex hx >>= Sexp.parse with
+      | some s => runPost s
+      | none => "err bad-sexp"
+  | ["complement", hx] =>
+      match unhex hx >>= Sexp.parse with
+      | some s => runComplement s
+      | none => "err bad-sexp"
+  | ["parsegeom", hx] =>
+      match unhex hx with
+      | none => "err bad-hex"
+      | some txt =>
+        match parseGeom txt with
+        | .ok g => "ok " ++ encodeGeom g
+        | .error .syntax => "ok error syntax"
+        | .error .notInvertible => "ok error notInvertible"
+        | .error .fuel => "ok error fuel"
+  | ["normalize", hx] =>
+      match unhex hx with
+      | none => "err bad-hex"
+      | some txt => "ok " ++ hex (String.ofList (normalize txt.toList))
   | _ => "err bad-op"
 
 partial def loop (h : IO.FS.Stream) (out : IO.FS.Stream) : IO Unit := do
